@@ -98,11 +98,17 @@ class Check(object):
             if r["status"] != "ok":
                 ent["reason"] = r["reason"]
                 self.stale.append(q)
+                # the code under this contract changed so that the contract text no longer applies (a renamed local in an
+                # invariant is enough): nothing is proved about it and nothing is refuted either - undecided, said aloud;
+                # the bounded part of the check and the concrete contract run still decide what they can
+                print("UNDECIDED: property=%s contract of %s no longer applies to the code: %s" % (self.pid, q, r["reason"]))
             self.functions.append(ent)
             for o in r["obligations"]:
                 owner[o.name] = q
             allobls.extend(r["obligations"])
         if not allobls and quals:
+            if len(self.stale) >= len(quals):
+                return []
             raise CheckerFault("zero obligations generated for %s" % self.pid)
         res = discharge(allobls, timeout=self.timeout(), engine=eng)
         # retry undecided ones one at a time with a longer budget (load can make verdicts flip)
